@@ -119,9 +119,9 @@ Definition spec_ok (c : case) : bool :=
 (* ---------------------------------------------------------------- recorded findings *)
 Definition fnth (l : list Z) (i : nat) : Z := nth i l 0.
 
-(* recorded, still open findings of the exploration part: 6, 8, 11 and the second site of 14 (top-k
-   executor).  The lexer / literal findings 1..5, 12 and the findings 7, 9, 10, 13 were repaired in
-   /repo; their witnesses run as corpus cases and must now satisfy spec_ok. *)
+(* recorded, still open findings of the exploration part: 6, 8, 11.  The lexer / literal findings
+   1..5, 12 and the findings 7, 9, 10, 13, 14 were repaired in /repo; their witnesses run as corpus
+   cases and must now satisfy spec_ok. *)
 Definition known_class (c : case) : Z :=
   match c with
   | Lex _ _ => 0
@@ -131,8 +131,6 @@ Definition known_class (c : case) : Z :=
       | APanic file cls =>
           if (file =? 45) && (cls =? 4) && (fnth feat 5 =? 1) then 6         (* src/records builder, a write statement *)
           else if (cls =? 7) && (Z.land (fnth feat 6) 1 =? 1) then 8         (* LPAD/RPAD/REPEAT/SPACE capacity overflow *)
-          else if ((file =? 4) || (file =? 42)) && (cls =? 3) && (fnth feat 8 =? 1) then 14
-                                                                             (* executor / planner: LIMIT + OFFSET overflow *)
           else 0
       | AAbort =>
           if (1000 <=? fnth feat 0) || (1000 <=? fnth feat 3) then 11        (* parser / planner / JSON recursion *)
